@@ -15,7 +15,7 @@ EXPLANATION = (
     "Processor::eval / Workspace::eval / wasm::process return Err on evaluation errors; (R5) PIPE-AGREE - run and "
     "oal_wasm::process call the same pipeline stages in the same order. Observed exit status, file contents, wording of "
     "diagnostics and document equality across front ends are not decided.")
-EXPLANATION += " Further clauses: (R6) LOADER-TEXT; (R7) OPTION-PRECEDENCE - Config::{main,target,base} take the command-line option first, each from its own field; (R8) the server recomputes diagnostics from the current texts after every notification and publishes all of them (shared C15.R1/R2/R3/R6); (R9) LOCATION-FREE - implicit component names identify a module relative to the main module, so CLI, playground and two checkouts agree. (R10) LOCATORS (shared C10.R7). R8 also shares C15.R4. (R11) LOCATED - the module loader's own errors are handed to the front end's reporting function. (R12) WIDTH-FREE - nothing of pointer width is fed into the digest that names a component."
+EXPLANATION += " Further clauses: (R6) LOADER-TEXT; (R7) OPTION-PRECEDENCE - Config::{main,target,base} take the command-line option first, each from its own field; (R8) the server recomputes diagnostics from the current texts after every notification and publishes all of them (shared C15.R1/R2/R3/R6); (R9) LOCATION-FREE - implicit component names identify a module relative to the main module, so CLI, playground and two checkouts agree. (R10) LOCATORS (shared C10.R7). R8 also shares C15.R4. (R11) LOCATED - the module loader's own errors are handed to the front end's reporting function. (R12) WIDTH-FREE - nothing of pointer width is fed into the digest that names a component. (R13) LEX-REPORTED - a lexical error is pushed onto the error list in its own iteration."
 TECHNIQUE = "static analysis: who-may-call over the call graph + MIR dominance / error-arm reachability"
 
 RAW_WRITERS = re.compile(r'^(std::fs::(write|remove_file|remove_dir|remove_dir_all|rename|copy|create_dir|create_dir_all|hard_link|set_permissions)'
